@@ -3,6 +3,7 @@ package main
 import (
 	"net/http"
 	"net/http/httptest"
+	"strings"
 	"sync"
 	"sync/atomic"
 	"time"
@@ -39,6 +40,14 @@ func runMut(raw Sx) (Sx, Sx) {
 	wa.Path("/a")
 	wa.Route(wa.GET("/x").To(say("A")))
 	wa.Route(wa.GET("/{id}/y").To(say("AY")))
+	// user code that asks the container about itself while serving (as the OPTIONS / CORS filters do)
+	wa.Route(wa.GET("/reg").To(func(rq *restful.Request, rp *restful.Response) {
+		n := len(c.RegisteredWebServices())
+		if n >= 3 {
+			rp.Write([]byte("REG"))
+		}
+	}))
+	c.Filter(c.OPTIONSFilter)
 	c.Add(wa)
 	wb := new(restful.WebService)
 	wb.Path("/b")
@@ -102,6 +111,8 @@ func runMut(raw Sx) (Sx, Sx) {
 		{"/a/7/y", []string{"200:AY"}, true},
 		{"/b/keep", []string{"200:BK"}, true},
 		{"/rootonly", []string{"200:R"}, true},
+		{"/a/reg", []string{"200:REG"}, true},
+		{"OPTIONS /a/x", []string{"200:"}, true},
 		{"/b/t", []string{"200:BT", "404:"}, false},
 		{"/c/y", []string{"200:C", "404:"}, false},
 	}
@@ -112,7 +123,11 @@ func runMut(raw Sx) (Sx, Sx) {
 			defer swg.Done()
 			for i := 0; i < iters; i++ {
 				t := targets[(s+i)%len(targets)]
-				hr, _ := http.NewRequest("GET", "http://h"+t.path, nil)
+				method, path := "GET", t.path
+				if strings.HasPrefix(path, "OPTIONS ") {
+					method, path = "OPTIONS", path[8:]
+				}
+				hr, _ := http.NewRequest(method, "http://h"+path, nil)
 				rec := httptest.NewRecorder()
 				guard(func() {
 					if entry == 0 || (entry == 2 && i%2 == 0) {
@@ -122,7 +137,7 @@ func runMut(raw Sx) (Sx, Sx) {
 					}
 				})
 				got := itoa(rec.Code) + ":"
-				if rec.Code == 200 {
+				if rec.Code == 200 && method == "GET" {
 					got += rec.Body.String()
 				}
 				ok := false
